@@ -43,6 +43,8 @@ pub open spec fn view_frange_incl<S: PageSize>(r: PhysFrameRangeInclusive<S>) ->
 //@ end
 
 //@ fn src/structures/paging/frame.rs | impl<S: PageSize> PhysFrame<S> | from_start_address_unchecked
+//@ obligation C03 C03.PhysFrame_from_start_address_unchecked.helper_identity
+//@ obligation C06 C06.PhysFrame_from_start_address_unchecked.helper_identity
 //@ A
     requires wf_p(start_address), is_mult(start_address.0 as int, S::SIZE as int),
     ensures r.start_address == start_address, wf_frame(r),
@@ -70,16 +72,19 @@ pub open spec fn view_frange_incl<S: PageSize>(r: PhysFrameRangeInclusive<S>) ->
 //@ end
 
 //@ fn src/structures/paging/frame.rs | impl<S: PageSize> PhysFrame<S> | size
+//@ obligation C07 C07.PhysFrame_size.is_page_size
 //@ A
     ensures r == S::SIZE,
 //@ end
 
 //@ fn src/structures/paging/frame.rs | impl<S: PageSize> PhysFrame<S> | range
+//@ obligation C07 C07.PhysFrame_range.bounds_as_given
 //@ A
     ensures r.start == start, r.end == end,
 //@ end
 
 //@ fn src/structures/paging/frame.rs | impl<S: PageSize> PhysFrame<S> | range_inclusive
+//@ obligation C07 C07.PhysFrame_range_inclusive.bounds_as_given
 //@ A
     ensures r.start == start, r.end == end,
 //@ end
